@@ -34,10 +34,13 @@ N_PLAIN = 9   # the first nine pool commands are sent in the gateway's own name
 for _z in range(8):
     POOL.append((f"RQ --- {HGI} {CTL} --:------ 000A 001 {_z:02X}", f"RP --- {CTL} {GWY} --:------ 000A 006 {_z:02X}1001F40DAC"))
 N_POOL_CLASSIC = 11       # gen_episode draws from the first eleven (nine plain + two impersonating)
+# a schema-valid command whose QoS header cannot be computed (index 01 to a device that has no zones): it can be matched to no echo
+POOL.append((f"RQ --- {HGI} 32:123456 --:------ 2411 003 010052", None))
+HEADERLESS = len(POOL) - 1
 
 
 def is_plain(cmd: int) -> bool:
-    return cmd < N_PLAIN or cmd >= N_POOL_CLASSIC
+    return (cmd < N_PLAIN or cmd >= N_POOL_CLASSIC) and cmd != HEADERLESS
 FOREIGN = [
     f" I --- {CTL} --:------ {CTL} 1F09 003 FF073F",
     f"RP --- {CTL} 18:999999 --:------ 2309 003 0007D0",       # same header as a reply, other gateway
@@ -147,7 +150,8 @@ def gen_episode(rnd: random.Random, fine: bool = True) -> Episode:
     for i in range(n_calls):
         t += rnd.choice((0.0, 0.0, 0.001, 0.3, 2.0))
         timeout = rnd.choice((20.0, 20.0, 5.0, 1.0, 0.5, 0.3, 0.5 + 5e-10, 1.5, 3.5 - 5e-10, 30.0)) if fine else rnd.choice((20.0, 5.0, 30.0))
-        e.calls.append({"t": t, "cmd": rnd.randrange(N_POOL_CLASSIC), "prio": rnd.choice((-2, 0, 0, 2, 4)),
+        e.calls.append({"t": t, "cmd": HEADERLESS if (fine and rnd.random() < 0.03) else rnd.randrange(N_POOL_CLASSIC),
+                        "prio": None if (fine and rnd.random() < 0.08) else rnd.choice((-2, 0, 0, 2, 4)),
                         "max_retries": rnd.choice((0, 1, 2, 3, 3, 5)), "timeout": timeout, "wfr": rnd.choice((None, None, True, False))})
     for c in {c["cmd"] for c in e.calls}:
         for n in range(1, 6):
@@ -366,7 +370,8 @@ def run_episode(ep: Episode) -> Result:
             cmd._repr.call = i
             qos = QosParams(max_retries=c["max_retries"], timeout=c["timeout"], wait_for_reply=c["wfr"])
             try:
-                pkt = await protocol.send_cmd(cmd, priority=Priority(c["prio"]), qos=qos)
+                # (None is what ramses_rf's own entity layer passes when it has no preference, e.g. every binding frame)
+                pkt = await protocol.send_cmd(cmd, priority=None if c["prio"] is None else Priority(c["prio"]), qos=qos)
                 res.outcomes[i] = (loop.time(), "ok", str(pkt))
             except Exception as e:  # noqa: BLE001
                 res.outcomes[i] = (loop.time(), "err", type(e).__name__ + ":" + ",".join(k.__name__ for k in type(e).__mro__[1:4]))
